@@ -45,8 +45,16 @@ package transport
 //@ func chunkKey [C15]
 //@ ensures result == sprintf("%d:%d:%d", c.ShardID, c.ReplicaID, c.Index)
 
+// gTmpRemovedFrom / gTmpRemovedCalls: the sender id of the stream whose temporary directory was removed
+// last, and how many removals there were (the directory name is made of shard, replica, index and
+// SENDER; streams under one key agree on the first three)
+//@ ghost var gTmpRemovedFrom int
+//@ ghost var gTmpRemovedCalls int
 //@ func (c *Chunk) removeTempDir [C15]
 //@ trusted file-system effects only (removes the temporary snapshot directory)
+//@ modifies gTmpRemovedFrom, gTmpRemovedCalls
+//@ ghostset gTmpRemovedFrom := chunk.From
+//@ ghostset gTmpRemovedCalls := old(gTmpRemovedCalls) + 1
 
 //@ func (c *Chunk) ssid [C15]
 //@ trusted log-argument helper
@@ -57,8 +65,14 @@ package transport
 //@ func (c *Chunk) record [C15]
 //@ noframe
 //@ requires c.tracked != nil && chunk.ChunkId < MaxUint64 && held(c.mu) == 0
-//@ modifies held(c.mu), entries(c.tracked), allof(tracked.next), allof(tracked.tick), allof(tracked.files), rsm.gLastAddOK, rsm.gAddCalls
+//@ modifies held(c.mu), entries(c.tracked), allof(tracked.next), allof(tracked.tick), allof(tracked.files), rsm.gLastAddOK, rsm.gAddCalls, gTmpRemovedFrom, gTmpRemovedCalls
 //@ ensures chunk.ChunkId != 0 ==> rsm.gAddCalls == old(rsm.gAddCalls)
+// a stream that is superseded by a restart (chunk 0 for a key that is being tracked) leaves the table
+// for good -- the timeout collector will never see it -- so ITS temporary directory (the one of the
+// sender that started it) is removed here; no other chunk removes anything
+//@ ensures chunk.ChunkId == 0 && old(sprintf("%d:%d:%d", chunk.ShardID, chunk.ReplicaID, chunk.Index) in c.tracked) && old(c.tracked[sprintf("%d:%d:%d", chunk.ShardID, chunk.ReplicaID, chunk.Index)]) != nil ==>
+//@    gTmpRemovedCalls == old(gTmpRemovedCalls) + 1 && gTmpRemovedFrom == old(c.tracked[sprintf("%d:%d:%d", chunk.ShardID, chunk.ReplicaID, chunk.Index)].first.From)
+//@ ensures chunk.ChunkId != 0 ==> gTmpRemovedCalls == old(gTmpRemovedCalls)
 //@ ensures held(c.mu) == 0
 //@ ensures result != nil && chunk.ChunkId != 0 ==> old(sprintf("%d:%d:%d", chunk.ShardID, chunk.ReplicaID, chunk.Index) in c.tracked) &&
 //@    result == old(c.tracked[sprintf("%d:%d:%d", chunk.ShardID, chunk.ReplicaID, chunk.Index)]) &&
